@@ -658,3 +658,17 @@ add("C15", "revert: helper generator copies its parent's table without pruning",
     "        if k not in generator.ALL_JSON_PATH_PARTS - TrinoGenerator.SUPPORTED_JSON_PATH_PARTS\n", "", "C15.f")
 add("C15", "benign: iterate the modifiers in sorted order", P,
     "                for arg in self.SET_OP_MODIFIERS:", "                for arg in sorted(self.SET_OP_MODIFIERS):", "silent", 0)
+
+add("C05", "revert Hive DATE_ADD increment guard", "sqlglot/generators/hive.py",
+    "    if isinstance(increment, exp.Literal) and (increment.is_number or is_int(increment.name)):",
+    "    if isinstance(increment, exp.Literal):", "C05.k")
+add("C05", "revert Hive FLOAT size guard", "sqlglot/generators/hive.py",
+    "            if size_expression and is_int(size_expression.name):", "            if size_expression:", "C05.k")
+add("C05", "revert JSON path int() wrapper", "sqlglot/jsonpath.py",
+    "            try:\n                return int(number)\n            except ValueError:\n                raise ParseError(_error(f\"Invalid number {number}\"))\n",
+    "            return int(number)\n", "C05.k")
+add("C05", "tokenizer hex validation loses its try", "sqlglot/tokenizer_core.py",
+    "        try:\n            # If `value` can't be converted to a hex, fallback to tokenizing it as an identifier\n            int(value, 16)\n            self._add(TokenType.HEX_STRING, value[2:])  # Drop the 0x\n        except ValueError:\n            self._add(TokenType.IDENTIFIER)\n",
+    "        int(value, 16)\n        self._add(TokenType.HEX_STRING, value[2:])  # Drop the 0x\n", "C05.k")
+add("C05", "benign: guard written with str.isdigit", "sqlglot/generators/hive.py",
+    "            if size_expression and is_int(size_expression.name):", "            if size_expression and size_expression.name.isdigit():", "silent", 0)
